@@ -1,0 +1,25 @@
+//go:build verif
+// +build verif
+
+// Machine-checked contracts for this package (checked by /verif/govc).
+// Comment-only: no executable code.
+
+package types
+
+// C06: each transaction requires the signature of exactly the party the protocol assigns
+// (table written from the property statement, not from the code).
+//@ func (MsgCreateBid).GetSigners   // provider
+//@   ensures len(result) == 1 && result[0] == unbech32(msg.Provider)
+//@ func (MsgWithdrawLease).GetSigners   // provider
+//@   ensures len(result) == 1 && result[0] == unbech32(msg.LeaseID.Provider)
+//@ func (MsgCreateLease).GetSigners   // tenant
+//@   ensures len(result) == 1 && result[0] == unbech32(msg.BidID.Owner)
+//@ func (MsgCloseBid).GetSigners   // provider
+//@   ensures len(result) == 1 && result[0] == unbech32(msg.BidID.Provider)
+//@ func (MsgCloseLease).GetSigners   // tenant
+//@   ensures len(result) == 1 && result[0] == unbech32(msg.LeaseID.Owner)
+//@ func (*MsgWithdrawLease).GetLeaseID
+//@   requires m != nil
+//@   ensures result == m.LeaseID
+
+//@ property C06 := (MsgCreateBid).GetSigners#*, (MsgWithdrawLease).GetSigners#*, (MsgCreateLease).GetSigners#*, (MsgCloseBid).GetSigners#*, (MsgCloseLease).GetSigners#*, (*MsgWithdrawLease).GetLeaseID#*
